@@ -238,6 +238,10 @@ You can provide input either as a file (as the first argument) or by piping logs
 				for i, file := range files {
 					// Compose output file path with serial integer
 					outPath := fmt.Sprintf("%s.%d", outputFile, i)
+					if encrypt && sameFile(encryptionKeyFile, outPath) {
+						fmt.Fprintf(os.Stderr, "Error: output file %s and --encryptionKeyFile name the same file; writing the output would destroy the key.\n", outPath)
+						failAfterCleanup()
+					}
 					outWriter, err := os.Create(outPath)
 					if err != nil {
 						fmt.Fprintf(os.Stderr, "Error opening output file %s: %v\n", outPath, err)
